@@ -145,6 +145,19 @@ def prop_sched(r):
             raise Violation(f"scheduler:raises:{type(e).__name__}", dict(error=repr(e)))
         _post(pick, r, T_rows, tb, nops, "scheduler")
         evals += 1
+        # scheduler(..., schedule_idx=i): selecting one of the schedules by index must hand out a schedule that satisfies the same
+        # requested constraints (every index that exists; capped)
+        if len(results) < CAP:
+            for i in sorted({0, len(results) - 1, (len(results) * 7 + nops) % len(results)}):
+                try:
+                    if r["checks"] == ["pos"]:
+                        pick_i = S.scheduler(tmpl, s, schedule_idx=i)
+                    else:
+                        pick_i = S.scheduler(tmpl, s, extra_checks=_checks(r), schedule_idx=i)
+                except Exception as e:
+                    raise Violation(f"scheduler-by-index:raises:{type(e).__name__}", dict(error=repr(e), index=i))
+                _post(pick_i, r, T_rows, tb, nops, "scheduler-by-index")
+                evals += 1
     ny = len(results)
     unb = any(b is None for b in tb)
     bcast = any(len(T_rows[i]) > len(r["ops"][i]["b"]) for i in range(nops))
